@@ -1002,6 +1002,14 @@ impl TypeSpace {
             })
         };
 
+        // A default value beyond i64::MAX can't be represented by an i64 (the
+        // generated default function would panic); the f64 comparisons below
+        // are too coarse to tell.
+        let default_exceeds_i64 = metadata
+            .as_ref()
+            .and_then(|m| m.default.as_ref())
+            .map_or(false, |default| default.is_u64() && !default.is_i64());
+
         // Ordered from most- to least-restrictive.
         // JSONSchema format, Rust Type, Rust NonZero Type, Rust type min, Rust type max
         let formats: &[(&str, &str, &str, f64, f64)] = &[
@@ -1095,7 +1103,11 @@ impl TypeSpace {
                         .and_then(|m| m.default.as_ref())
                         .and_then(|v| v.as_f64())
                     {
-                        if default < *imin || default > *imax || !within_bounds(default) {
+                        if default < *imin
+                            || default > *imax
+                            || !within_bounds(default)
+                            || (default_exceeds_i64 && *ty == "i64")
+                        {
                             return Err(Error::InvalidValue);
                         }
                     }
@@ -1171,14 +1183,15 @@ impl TypeSpace {
         };
 
         // TODO we should do something with `multiple`
-        if let Some(ty) = maybe_type {
-            Ok((TypeEntry::new_integer(ty), metadata))
+        // TODO we could construct a type that itself enforces the various
+        // bounds.
+        // TODO failing that, we should find the type that most tightly
+        // matches these bounds.
+        let ty = maybe_type.unwrap_or_else(|| "i64".to_string());
+        if default_exceeds_i64 && ty == "i64" {
+            Err(Error::InvalidValue)
         } else {
-            // TODO we could construct a type that itself enforces the various
-            // bounds.
-            // TODO failing that, we should find the type that most tightly
-            // matches these bounds.
-            Ok((TypeEntry::new_integer("i64"), metadata))
+            Ok((TypeEntry::new_integer(ty), metadata))
         }
     }
 
